@@ -81,6 +81,7 @@ inline Profile profile_for(int prop, unsigned caps)
         case 2:
             history(2);
             add(K_FILL, 10);
+            copies(1);  // "no operation reads or writes outside the block": copy/move/assignment re-use or re-create blocks too
             break;
         case 3:
         case 4:
